@@ -99,11 +99,12 @@ STXT, SOBJ, DICT, OPTPARAM, PARAM, CTRLFN = Ty('SettingTxt'), Ty('SettingObj'), 
 CHAR, SELF = Ty('Char'), Ty('Self')          # Self: `self` inside a method of AnsiSetting (the text and the two cache attributes)
 CTLSEQ, SEQS, OPTSTR, PSELF = Ty('CtlSeq'), Ty('Seqs'), Ty('OptStr'), Ty('PSelf')   # PSelf: self in ParsedAnsiControlSequenceString
 OPTMATCH, MATCH, COMPDICT = Ty('OptMatch'), Ty('Match'), Ty('CompDict')      # re.search(...) / its match object; {prefix: component}
+SOUT, MEMBER, IDENT = Ty('SOut'), Ty('Member'), Ty('Ident')   # an AnsiSetting or an int; an AnsiFormat member; the value of id(x)
 LEAN_TY = {'Str': 'Str', 'Int': 'Int', 'Bool': 'Bool', 'Code': 'Code', 'Nat': 'Nat', 'SettingTxt': 'Str', 'SettingObj': 'Setting',
            'Dict': 'PyDict', 'OptParam': 'Option (Nat × Nat)', 'Param': 'Nat × Nat', 'CtrlFn': 'List Nat × Nat',
            'Char': 'Char', 'Self': 'PyParse.SObj', 'CtlSeq': 'CtlSeq', 'Seqs': 'List (Nat × List CtlSeq)', 'OptStr': 'Option Str',
            'PSelf': 'Parsed', 'Item': 'Int × List CtlSeq', 'OptMatch': 'Option Re.Caps', 'Match': 'Re.Caps',
-           'CompDict': 'List (Str × Nat)'}
+           'CompDict': 'List (Str × Nat)', 'SOut': 'SOut', 'Member': 'Str × List Str', 'Ident': 'Unit'}
 SCALAR = ('Int', 'Str', 'Code')
 MUTABLE = ('List', 'Dict')
 
@@ -167,6 +168,8 @@ def annotation(a):
                 out += annotation(x)
             if sorted(t.kind for t in out) == ['Int', 'Str']:
                 return [CODE]
+            if sorted(t.kind for t in out) == ['Int', 'SettingObj']:
+                return [SOUT]
             return out
         if a.value.id == 'List' and len(args) == 1:
             e = annotation(args[0])
@@ -213,7 +216,14 @@ SELF_INFO = {'Self': dict(lean='PyParse.SObj', fields=SELF_FIELDS, methods=SELF_
              'PSelf': dict(lean='Parsed', fields={'_s': ('text', STR, False), 'sequences': ('seqs', SEQS, False)}, methods={})}
 # parameters whose annotation does not say what they are (`allow_empty_terminator:str=True`, `…:str=None`)
 PARAM_TYPES = {('ParsedAnsiControlSequenceString', '__init__'): [('s', STR), ('allow_empty_terminator', BOOL), ('acceptable_terminators', OPTSTR)]}
+ERRORS = {'ValueError': '.error (.py .valueError)', 'KeyError': '.error .key'}
+# isinstance(x, cls): the static types for which it is True (for the others it is False, unless the type is a union)
+INSTANCE_OF = {'int': ('Int',), 'str': ('Str',), 'AnsiSetting': ('SettingTxt', 'SettingObj'), 'list': ('List',), 'tuple': ()}
 NARROWED = {'OptParam': PARAM, 'OptStr': STR, 'OptMatch': MATCH}
+
+
+def lean_char(c):
+    return "'%s'" % c if 32 <= ord(c) < 127 and c not in "'\\" else '(Char.ofNat %d)' % ord(c)
 
 
 def lean_str(s):
@@ -244,14 +254,16 @@ class Ctx:
 
 
 class Fn:
-    def __init__(self, fn, imports, params):
-        self.fn, self.imports = fn, imports
+    def __init__(self, fn, imports, params, cls=None, defaults=None):
+        self.fn, self.imports, self.cls = fn, imports, cls
+        self.defaults = defaults or []             # parameters left at their default value: (name, Lean text, type)
         self.params = params                       # [(name, Ty)]
         self.ret = Ty('Var')
         self.ntmp = 0
         self.njoin = 0
         self.nmark = 0
         self.deps = set()                          # generated modules of translated methods that are called
+        self.scalar_elem = CODE                    # what a list of ints/strs holds: Code, or SOut when the function returns such a list
         # the `re.search(<literal>, …)` calls in source order: the k-th is Gen.regex_<function>_k (harness/pyre.py)
         sites = sorted((n.lineno, n.col_offset) for n in ast.walk(fn) if self.re_site(n))
         self.re_sites = {pos: k for k, pos in enumerate(sites, 1)}
@@ -269,6 +281,7 @@ class Fn:
     # ex(e, env) -> (binds, text, type); binds = [(kind, Lean expression, name)] to be run before:
     #   'bind'  an `Except`: `(e).bind fun name =>`
     #   'opt'   an `Option`, `none` being a ValueError: goes to the handler of the enclosing `try`, or leaves the function
+    #   'optK'  the same for a KeyError
     #   'self'  a call of a translated method that assigns attributes of self: `(e).bind fun name =>`, self := name.2
 
     def dotted(self, e):
@@ -294,6 +307,9 @@ class Fn:
                 return [], '(%d : Int)' % v, INT
             if isinstance(v, str):
                 return [], lean_str(v), STR
+            if v is None:
+                t = Ty('Opt', Ty('Var'))
+                return [], '(none : %s)' % lean_ty(t), t
             raise Unsupported('constant ' + repr(v))
         if isinstance(e, ast.Name):
             if e.id in env:
@@ -409,6 +425,14 @@ class Fn:
             elem = Ty('Var')
             x = self.coerce(x, tx, elem)
             return b, '(%s.map (fun (%s : %s) => %s))' % (it, mangle(g.target.id), lean_ty(t.elem), x), List_(elem)
+        if isinstance(e, ast.Subscript) and isinstance(e.value, ast.Name) and e.value.id == 'AnsiFormat' \
+                and 'AnsiFormat' not in env and 'AnsiFormat' not in self.locals and not isinstance(e.slice, ast.Slice):
+            self.need_import('AnsiFormat', 'ansi_format')       # the member of that name; KeyError
+            b, x, t = self.ex(e.slice, env)
+            if t.r().kind != 'Str':
+                raise Unsupported(ast.unparse(e))
+            n = self.tmp()
+            return b + [('optK', '(PyParse.formatMember %s)' % x, n)], n, MEMBER
         if isinstance(e, ast.Subscript):
             if isinstance(e.value, ast.Name) and isinstance(e.slice, ast.Constant) and (e.value.id, e.slice.value) in GLOBAL_ITEMS \
                     and e.value.id not in env and e.value.id not in self.locals:
@@ -448,7 +472,7 @@ class Fn:
         """x : t as an element of a list / a value of the type `want`"""
         t, want = t.r(), want.r()
         if want.kind == 'Var':
-            unify(want, CODE if t.kind in SCALAR else t)
+            unify(want, self.scalar_elem if t.kind in SCALAR else t)
             want = want.r()
         if t.kind == 'Var':
             unify(t, want)
@@ -457,6 +481,14 @@ class Fn:
             return '(Code.int %s)' % x
         if want.kind == 'Code' and t.kind == 'Str':
             return '(Code.str %s)' % x
+        if want.kind == 'SOut' and t.kind == 'Int':
+            return '(SOut.int %s)' % x
+        if want.kind == 'SOut' and t.kind == 'SettingTxt':
+            return '(SOut.setting %s)' % x
+        if want.kind == 'Opt' and t.kind != 'Opt':
+            return '(some %s)' % self.coerce(x, t, want.elem)
+        if want.kind == 'List' and t.kind == 'List' and want.elem.r().kind == 'SOut' and t.elem.r().kind == 'SettingTxt':
+            return '(%s.map SOut.setting)' % x
         unify(t, want, 'for ' + x)
         return x
 
@@ -475,6 +507,12 @@ class Fn:
             raise Unsupported('attribute .%s of self' % attr)
         if k == 'CtlSeq' and attr in ('sequence', 'terminator'):
             return [], '%s.%s' % (x, attr), STR
+        if k == 'Member' and attr == 'ansi_settings':          # a list nobody changes
+            return [], '%s.2' % x, List_(STXT)
+        if k == 'Opt':          # AttributeError on None
+            n = self.tmp()
+            b2, x2, t2 = self.attribute(n, t.elem.r(), attr)
+            return [('bind', 'PyParse.getAttr %s' % x, n)] + b2, x2, t2
         if attr == 'parsable' and k == 'SettingTxt':
             return [], '(SettingTxt.parsable %s)' % x, BOOL
         if attr == 'parsable' and k == 'SettingObj':
@@ -526,6 +564,8 @@ class Fn:
             return b, '(PyParse.truthyOptStr %s)' % x
         if k == 'Match':
             return b, 'true'
+        if k == 'Opt' and t.r().elem.r().kind == 'List':
+            return b, '(Py.truthyOptList %s)' % x
         raise Unsupported('truth value of %r: %s' % (t, ast.unparse(e)))
 
     def compare(self, e, env):
@@ -569,9 +609,44 @@ class Fn:
     def static_isinstance(self, e, env):
         """isinstance(x, int|str) -> (name or None, text, type of x, 'int'|'str')"""
         if not (isinstance(e, ast.Call) and isinstance(e.func, ast.Name) and e.func.id == 'isinstance' and 'isinstance' not in self.locals
-                and len(e.args) == 2 and not e.keywords and isinstance(e.args[1], ast.Name) and e.args[1].id in ('int', 'str')):
+                and len(e.args) == 2 and not e.keywords and isinstance(e.args[1], ast.Name) and e.args[1].id in INSTANCE_OF
+                and e.args[1].id not in env and e.args[1].id not in self.locals):
             return None
         return e.args[0], e.args[1].id
+
+    @staticmethod
+    def verdict(kind, cls):
+        """isinstance(<a value of this static type>, cls): True, False, or None when only the value tells"""
+        if kind in INSTANCE_OF[cls]:
+            return True
+        if kind in ('Code', 'SOut', 'Var', 'Opt') or kind.startswith('Opt'):
+            return None
+        return False
+
+    def static_test(self, e, env):
+        """the value of a condition that the static types decide and that evaluates nothing that can raise, or None"""
+        if isinstance(e, ast.UnaryOp) and isinstance(e.op, ast.Not):
+            v = self.static_test(e.operand, env)
+            return None if v is None else not v
+        if isinstance(e, ast.BoolOp):
+            vs = [self.static_test(v, env) for v in e.values]
+            if isinstance(e.op, ast.And):
+                for v in vs:            # left to right: a False decides, an unknown before it does not
+                    if v is None:
+                        return None
+                    if v is False:
+                        return False
+                return True
+            for v in vs:
+                if v is None:
+                    return None
+                if v is True:
+                    return True
+            return False
+        si = self.static_isinstance(e, env)
+        if si is not None and isinstance(si[0], ast.Name) and si[0].id in env:
+            return self.verdict(env[si[0].id].r().kind, si[1])
+        return None
 
     def call(self, e, env):
         f = e.func
@@ -628,11 +703,25 @@ class Fn:
                     raise Unsupported(ast.unparse(e))
                 b, x, t = self.ex(si[0], env)
                 k = t.r().kind
-                if k == 'Code':
+                if k == 'Code' and si[1] in ('int', 'str'):
                     return b, '(match %s with | .int _ => %s | .str _ => %s)' % (x, *(('true', 'false') if si[1] == 'int' else ('false', 'true'))), BOOL
-                if k in ('Int', 'Str', 'List', 'Dict', 'SettingTxt', 'SettingObj', 'Nat'):
-                    return b, 'true' if k == {'int': 'Int', 'str': 'Str'}[si[1]] else 'false', BOOL
+                v = self.verdict(k, si[1])
+                if v is not None:
+                    return b, 'true' if v else 'false', BOOL
                 raise Unsupported(ast.unparse(e))
+            if f.id == 'parse_graphic_sequence' and len(e.args) == 2:
+                self.need_import('parse_graphic_sequence', 'ansi_parsing')
+                b1, x1, t1 = self.ex(e.args[0], env)
+                b2, x2, t2 = self.ex(e.args[1], env)
+                unify(t1, List_(CODE), 'argument of parse_graphic_sequence')
+                if t2.r().kind != 'Bool':
+                    raise Unsupported(ast.unparse(e))
+                self.deps.add('ParseGraphicSequence')
+                n = self.tmp()
+                return b1 + b2 + [('call', 'Gen.parseGraphicSequenceList %s %s' % (x1, x2), n)], n, List_(STXT)
+            if f.id == 'id' and len(e.args) == 1:
+                b, x, t = self.ex(e.args[0], env)       # an identity: nothing can be done with it here but keep it
+                return b, '()', IDENT
             if f.id == 'int' and len(e.args) == 2:
                 # int(<digits>, base): base 10 or 16 on plain hexadecimal digits, as the patterns capture them
                 b1, x1, t1 = self.ex(e.args[0], env)
@@ -697,6 +786,26 @@ class Fn:
                 n = self.tmp()
                 return b + [('bind', 'PyParse.%s %s' % (fnm, x), n)], n, STXT
             raise Unsupported('call of ' + f.id)
+        if isinstance(f, ast.Attribute) and isinstance(f.value, ast.Name) and f.value.id == '__class__' and '__class__' not in env \
+                and self.cls is not None and (self.cls, f.attr) in STATIC_CALLS:
+            # another static method of the class, translated as well; what it raises passes through
+            b = []
+            args = [self.ex(a, env) for a in e.args]
+            for a in args:
+                b = b + a[0]
+            cands = STATIC_CALLS[(self.cls, f.attr)]
+            for lean, mod, ptys, rty, fuel in cands:
+                if len(args) <= len(ptys) and all(same(a[2], pt) or (a[2].r().kind == 'List' and pt.kind == 'List' and
+                                                                    (a[2].r().elem.r().kind == 'Var' or same(a[2].r().elem, pt.elem)))
+                                                   for a, pt in zip(args, ptys)) and len(args) == len(ptys):
+                    for a, pt in zip(args, ptys):
+                        unify(a[2], pt, 'argument of ' + f.attr)
+                    self.deps.add(mod)
+                    if fuel:
+                        self.uses_fuel = True
+                    n = self.tmp()
+                    return b + [('call', 'Gen.%s %s%s' % (lean, 'fuel_ ' if fuel else '', ' '.join(a[1] for a in args)), n)], n, rty
+            raise Unsupported('call of %s with these types' % f.attr)
         if isinstance(f, ast.Attribute):
             b, x, t = self.ex(f.value, env)
             k = t.r().kind
@@ -718,6 +827,13 @@ class Fn:
                     and isinstance(e.args[1], ast.Constant) and e.args[1].value == 1 and not isinstance(e.args[1].value, bool):
                 n = self.tmp()          # maxsplit = 1
                 return b + [('bind', 'PyParse.split1 %s %s' % (x, args[0][1]), n)], n, List_(STR)
+            if f.attr == 'upper' and k == 'Str' and not args:
+                return b, '(PyParse.upper %s)' % x, STR
+            if f.attr == 'replace' and k == 'Str' and len(args) == 2 and all(isinstance(a, ast.Constant) and isinstance(a.value, str)
+                                                                            and len(a.value) == 1 for a in e.args):
+                return b, '(PyParse.replaceChar %s %s %s)' % (x, lean_char(e.args[0].value), lean_char(e.args[1].value)), STR
+            if f.attr == 'startswith' and k == 'Str' and len(args) == 1 and args[0][2].r().kind == 'Str':
+                return b, '(Py.startsWith %s %s)' % (x, args[0][1]), BOOL
             if f.attr == 'isdigit' and k == 'Str' and not args:
                 return b, '(Py.isdigit %s)' % x, BOOL
             if k in SELF_INFO and f.attr in SELF_INFO[k]['methods'] and not SELF_INFO[k]['methods'][f.attr][4] and not args:
@@ -741,12 +857,15 @@ class Fn:
     def wrap(self, binds, lines, ctx):
         """the lines, after what has to be evaluated before them"""
         for kind, x, n in reversed(binds):
-            if kind == 'bind':
+            if kind == 'call' and ctx is not None and ctx.handler:
+                raise Unsupported('a call of a translated function inside try')     # what it raises would have to reach the handler
+            if kind in ('bind', 'call'):
                 lines = ['(%s).bind fun %s =>' % (x, n)] + lines
             elif kind == 'self':
                 lines = ['(%s).bind fun %s =>' % (x, n), 'let self : PyParse.SObj := %s.2' % n] + lines
             else:
-                handler = ctx.handler if ctx.handler is not None else ['.error (.py .valueError)']
+                cls = 'KeyError' if kind == 'optK' else 'ValueError'
+                handler = ctx.handler[cls] if ctx.handler and cls in ctx.handler else [ERRORS[cls]]
                 lines = ['(match %s with' % x, '| none =>'] + ind(handler) + ['| some %s =>' % n] + ind(lines)
                 lines[-1] += ')'
         return lines
@@ -828,6 +947,8 @@ class Fn:
     def bind_name(self, name, x, t, env):
         """`name = x` -> lines; env is updated"""
         t = t.r()
+        if name in env and env[name].r().kind == 'Opt' and t.kind != 'Opt':
+            x, t = self.coerce(x, t, env[name]), env[name].r()        # a variable that may hold None
         if name in env:
             unify(env[name], t, 'for ' + name)       # a variable keeps its type
         env[name] = t
@@ -843,7 +964,7 @@ class Fn:
                 raise Unsupported('name ' + name)
             tc = env[name].r()
             bk, k, tk = self.ex(target.slice, env)
-            if any(kind == 'opt' for kind, _, _ in bk):
+            if any(kind.startswith('opt') for kind, _, _ in bk):
                 raise Unsupported('subscript of the target: ' + ast.unparse(target))
             lines = self.wrap(bk, [], None)
             if tc.kind == 'List' and tk.r().kind == 'Int':
@@ -851,6 +972,16 @@ class Fn:
                 return lines + ['(Py.setIdx %s %s %s).bind fun %s =>' % (mangle(name), k, v, mangle(name))]
             if tc.kind == 'Dict' and tk.r().kind == 'Nat' and t.r().kind == 'SettingObj':
                 return lines + ['let %s : PyDict := (PyDict.insert %s %s %s)' % (mangle(name), mangle(name), k, x)]
+        if isinstance(target, ast.Subscript) and isinstance(target.value, ast.Name) and isinstance(target.slice, ast.Slice) \
+                and target.value.id in env and env[target.value.id].r().kind == 'List' and target.slice.step is None \
+                and target.slice.lower is not None and target.slice.upper is not None:
+            name = target.value.id          # l[a:b] = v
+            b1, lo, t1 = self.ex(target.slice.lower, env)
+            b2, hi, t2 = self.ex(target.slice.upper, env)
+            if b1 or b2 or t1.r().kind != 'Int' or t2.r().kind != 'Int':
+                raise Unsupported('assignment to ' + ast.unparse(target))
+            v = self.coerce(x, t, env[name])
+            return ['let %s : %s := (Py.sliceAssign %s %s %s %s)' % (mangle(name), lean_ty(env[name]), mangle(name), lo, hi, v)]
         if isinstance(target, ast.Attribute) and isinstance(target.value, ast.Name) and target.value.id in env \
                 and env[target.value.id].r().kind in SELF_INFO and target.attr in SELF_INFO[env[target.value.id].r().kind]['fields']:
             info = SELF_INFO[env[target.value.id].r().kind]
@@ -864,7 +995,7 @@ class Fn:
             # self.sequences[k] = v
             bo, xo, to = self.ex(target.value, env)
             bk, kx, tk = self.ex(target.slice, env)
-            if bo or any(kind == 'opt' for kind, _, _ in bk) or not isinstance(target.value.value, ast.Name):
+            if bo or any(kind.startswith('opt') for kind, _, _ in bk) or not isinstance(target.value.value, ast.Name):
                 raise Unsupported('assignment to ' + ast.unparse(target))
             if to.r().kind == 'Seqs' and tk.r().kind == 'Int':
                 unify(t, List_(CTLSEQ), 'for ' + ast.unparse(target))
@@ -892,7 +1023,10 @@ class Fn:
         if isinstance(s, ast.Assign):
             if len(s.targets) != 1:
                 raise Unsupported(ast.unparse(s))
-            b, x, t = self.value_for_store(s.value, env)
+            if isinstance(s.targets[0], ast.Subscript) and isinstance(s.targets[0].slice, ast.Slice):
+                b, x, t = self.ex(s.value, env)         # l[a:b] = v copies the items of v
+            else:
+                b, x, t = self.value_for_store(s.value, env)
             env = dict(env)
             return self.wrap(b, self.assign(s.targets[0], x, t, env) + go(env), ctx)
         if isinstance(s, ast.AnnAssign):
@@ -918,6 +1052,13 @@ class Fn:
                 new, ty = '(%s %s %s)' % (n, '+' if isinstance(s.op, ast.Add) else '-', x), INT
             elif tt.r().kind == 'Str' and t.r().kind == 'Str' and isinstance(s.op, ast.Add):
                 new, ty = '(%s ++ %s)' % (n, x), STR
+            elif tt.r().kind == 'List' and isinstance(s.op, ast.Add) and t.r().kind in ('List', 'Opt'):
+                if t.r().kind == 'Opt':             # TypeError when it is None (here: outside)
+                    n2 = self.tmp()
+                    b, x, t = b + [('bind', 'Py.optGet %s' % x, n2)], n2, t.r().elem
+                if tt.r().elem.r().kind == 'Var':
+                    unify(tt.r().elem, self.scalar_elem if t.r().elem.r().kind in SCALAR else t.r().elem)
+                new, ty = '(%s ++ %s)' % (n, self.coerce(x, t, tt)), tt
             else:
                 raise Unsupported(ast.unparse(s))
             env = dict(env)
@@ -986,6 +1127,8 @@ class Fn:
                     x, t = '(some %s)' % x, OPTPARAM
                 elif self.ret_optional and not self.ret_param and t.r().kind != 'Opt':
                     x, t = '(some %s)' % x, Ty('Opt', t)
+            if self.ret.r().kind == 'List' and t.r().kind == 'List':
+                x, t = self.coerce(x, t, self.ret), self.ret
             unify(self.ret, t, 'returned')
             return self.wrap(b, ctx.ret(x), ctx)
         if isinstance(s, ast.Raise):
@@ -994,7 +1137,7 @@ class Fn:
                 e = e.func
             if s.cause is not None or not (isinstance(e, ast.Name) and e.id == 'ValueError' and 'ValueError' not in self.locals):
                 raise Unsupported(ast.unparse(s))
-            return list(ctx.handler) if ctx.handler is not None else ['.error (.py .valueError)']
+            return list(ctx.handler['ValueError']) if ctx.handler and 'ValueError' in ctx.handler else [ERRORS['ValueError']]
         if isinstance(s, ast.Continue):
             if not ctx.in_loop:
                 raise Unsupported('continue outside a loop')
@@ -1083,6 +1226,9 @@ class Fn:
                 else:
                     new = ast.If(test=first, body=[ast.If(test=others, body=list(body), orelse=list(orelse))], orelse=list(orelse))
                 return self.if_(new, rest, env, k, ctx)
+        st = self.static_test(test, env)
+        if st is not None:          # decided by the types the function is being translated for
+            return self.block(list(body if st else orelse) + list(rest), env, k, ctx)
         neg = False
         while isinstance(test, ast.UnaryOp) and isinstance(test.op, ast.Not) and \
                 (self.static_isinstance(test.operand, env) or self.none_test(test.operand, env)):
@@ -1092,7 +1238,7 @@ class Fn:
             name, cls = si[0].id, si[1]
             kind = env[name].r().kind
             a, b = (orelse, body) if neg else (body, orelse)          # a: is an instance
-            if kind == 'Code':
+            if kind == 'Code' and cls in ('int', 'str'):
                 e_int, e_str = dict(env), dict(env)
                 e_int[name], e_str[name] = INT, STR
                 first, second = (a, b) if cls == 'int' else (b, a)
@@ -1103,10 +1249,18 @@ class Fn:
                     l[-1] += ')'
                     return l
                 return self.branching([(e_int, first), (e_str, second)], rest, env, k, ctx, assemble)
-            if kind in ('Int', 'Str', 'List', 'Dict', 'SettingTxt', 'SettingObj'):
+            v = self.verdict(kind, cls)
+            if v is not None:
                 # decided by the type the function is being translated for
-                taken = a if kind == {'int': 'Int', 'str': 'Str'}[cls] else b
-                return self.block(list(taken) + list(rest), env, k, ctx)
+                return self.block(list(a if v else b) + list(rest), env, k, ctx)
+        elif si is not None and not isinstance(si[0], ast.Name):
+            # isinstance(<expression>, cls): the expression is evaluated (it may raise), its static type decides
+            bx, xx, tx = self.ex(si[0], env)
+            v = self.verdict(tx.r().kind, si[1])
+            if v is None:
+                raise Unsupported(ast.unparse(test))
+            a, b = (orelse, body) if neg else (body, orelse)
+            return self.wrap(bx, self.block(list(a if v else b) + list(rest), env, k, ctx), ctx)
         nt = self.none_test(test, env)
         if nt is None and isinstance(test, ast.Name) and test.id in env and env[test.id].r().kind == 'OptMatch':
             nt = (test.id, False)           # `if match:` — a match object is true
@@ -1146,7 +1300,7 @@ class Fn:
         if s.finalbody or len(s.handlers) != 1:
             raise Unsupported('try: ' + ast.unparse(s).split('\n')[1])
         h = s.handlers[0]
-        if h.name is not None or not (isinstance(h.type, ast.Name) and h.type.id == 'ValueError' and 'ValueError' not in self.locals):
+        if h.name is not None or not (isinstance(h.type, ast.Name) and h.type.id in ERRORS and h.type.id not in self.locals):
             raise Unsupported('except clause')
         assigned = self.stores(s.body)
         params = [n for n in env if n in assigned]
@@ -1159,7 +1313,9 @@ class Fn:
             head = ['let %s : %s := (%s' % (hn, ty, 'fun %s =>' % ' '.join(mangle(n) for n in params) if params else '')]
             hbody = ind(hbody, 4)
             hbody[-1] += ')'
-            inner = ctx.but(handler=[' '.join([hn] + [mangle(n) for n in params])])
+            handlers = dict(ctx.handler or {})       # what this `try` does not catch goes to an enclosing one
+            handlers[h.type.id] = [' '.join([hn] + [mangle(n) for n in params])]
+            inner = ctx.but(handler=handlers)
             body = self.block(s.body, dict(a_env), lambda e: self.block(s.orelse, e, kk, ctx), inner)
             return head + hbody + body
         force = bool(rest) and self.falls(h.body) and self.falls(list(s.body) + list(s.orelse))
@@ -1358,6 +1514,18 @@ class Fn:
             env[p] = t
         if len(env) != len(self.params):
             raise Unsupported('signature')
+        pre_lines = []
+        for p, x, t in self.defaults:          # parameters the callers leave at their default value
+            env[p] = t
+            pre_lines.append('let %s : %s := %s' % (mangle(p), lean_ty(t), x))
+        if fn.returns is not None:          # a list of AnsiSettings and ints: what its lists of scalars hold
+            try:
+                ra = annotation(fn.returns)
+            except Unsupported:
+                ra = []
+            if len(ra) == 1 and ra[0].kind == 'List' and ra[0].elem.r().kind == 'SOut':
+                self.scalar_elem = SOUT
+                unify(self.ret, ra[0])
 
         def fell_off(env_b):
             raise Unsupported('the end of the function can be reached without a return')
@@ -1384,7 +1552,7 @@ class Fn:
                 ctx = Ctx('(⟪R⟫ × %s)' % SELF_INFO[self_kind[0]]['lean'], lambda x: ['.ok (%s, self)' % x])
             else:
                 ctx = Ctx('⟪R⟫', lambda x: ['.ok %s' % x])
-            lines = self.block(fn.body, env, fell_off, ctx)
+            lines = pre_lines + self.block(fn.body, env, fell_off, ctx)
         text = '\n'.join(ind(lines))
         text = text.replace('⟪R⟫', lean_ty(self.ret, True))
         text = self.resolve_vars(text)
@@ -1400,7 +1568,7 @@ class Fn:
             t = VARS.get(int(m.group(1)))
             if t is None or t.r().kind == 'Var':
                 raise Unsupported('a list whose elements are never determined')
-            return lean_ty(t.r())
+            return lean_ty(t.r(), True)
         for _ in range(8):
             new = re.sub(r'⟪T(\d+)⟫', var, text)
             if new == text:
@@ -1557,6 +1725,15 @@ def formatRgb1 (v : Int) (comp : Nat) : Except Exc (List Str) :=
 def formatColor256 (v : Int) (comp : Nat) : Except Exc (List Str) :=
   if v < 0 then .error .outside else .ok (Scrub.colorSettings comp false [v.toNat])
 
+/-- `s.upper()` (ASCII, as the model) -/
+def upper (s : Str) : Str := s.map Scrub.upperAscii
+
+/-- `s.replace(a, b)` for two one-character strings -/
+def replaceChar (s : Str) (a b : Char) : Str := s.map (fun c => if c == a then b else c)
+
+/-- `AnsiFormat[name]`: the member as `(name, [str(x) for x in member.ansi_settings])`; `none` = KeyError -/
+def formatMember (name : Str) : Option (Str × List Str) := Gen.formatTable.find? (fun r => r.1 == name)
+
 /-- `del d[k]`; KeyError when absent -/
 def dictDel (d : PyDict) (k : Nat) : Except Exc PyDict := if d.contains k then .ok (d.erase k) else .error .key
 
@@ -1567,12 +1744,27 @@ end PyParse
 FUNCS = [('settings_to_dict', None, 'SettingsToDict'), ('parse_graphic_sequence', None, 'ParseGraphicSequence')]
 METHODS = [('valid', 'AnsiSetting', 'SettingValid'), ('to_list', 'AnsiSetting', 'SettingToList'),
            ('parsable', 'AnsiSetting', 'SettingParsable'), ('get_initial_param', 'AnsiSetting', 'SettingInitialParam')]
-STRING_METHODS = [('_scrub_ansi_format_int', '_AnsiSettingPoint', 'ScrubFormatInt'), ('_parse_rgb_string', '_AnsiSettingPoint', 'ParseRgbString')]
+STRING_METHODS = [('_scrub_ansi_format_int', '_AnsiSettingPoint', 'ScrubFormatInt'), ('_parse_rgb_string', '_AnsiSettingPoint', 'ParseRgbString'),
+                  ('_scrub_ansi_settings', '_AnsiSettingPoint', 'ScrubSettingsObjs'),
+                  ('_scrub_ansi_format_string', '_AnsiSettingPoint', 'ScrubFormatString')]
 PARSING_METHODS = [('__init__', 'ParsedAnsiControlSequenceString', 'Tokenize'), ('formatted_str', 'ParsedAnsiControlSequenceString', 'FormattedStr')]
 CLASS_KIND = {'AnsiSetting': SELF, 'ParsedAnsiControlSequenceString': PSELF}
 # static methods: (class, method) -> Lean name
 STATIC_METHODS = {('_AnsiSettingPoint', '_scrub_ansi_format_int'): 'scrubFormatIntCode',
-                  ('_AnsiSettingPoint', '_parse_rgb_string'): 'parseRgbStringCode'}
+                  ('_AnsiSettingPoint', '_parse_rgb_string'): 'parseRgbStringCode',
+                  ('_AnsiSettingPoint', '_scrub_ansi_settings'): 'scrubSettingsObjsCode',
+                  ('_AnsiSettingPoint', '_scrub_ansi_format_string'): 'scrubFormatStringCode'}
+# a static method translated for particular types of its arguments (it is dynamically typed; the other types are
+# not translated): the parameters, and those left at their default value as (name, Lean text, type).
+# `_scrub_ansi_settings(<list of AnsiSettings>, make_unique)` is the call `_scrub_ansi_format_string` makes.
+STATIC_PARAMS = {('_AnsiSettingPoint', '_scrub_ansi_settings'):
+                 ([('settings', List_(STXT)), ('make_unique', BOOL)], [('parsed_ids', '([] : List Unit)', List_(IDENT))])}
+# calls `__class__.<name>(…)` among the translated static methods: (Lean name, module, argument types, result type, takes fuel_)
+STATIC_CALLS = {
+    ('_AnsiSettingPoint', '_parse_rgb_string'): [('parseRgbStringCode', 'ParseRgbString', [STR], Ty('Opt', List_(STXT)), False)],
+    ('_AnsiSettingPoint', '_scrub_ansi_format_int'): [('scrubFormatIntCode', 'ScrubFormatInt', [INT], INT, False)],
+    ('_AnsiSettingPoint', '_scrub_ansi_settings'): [('scrubSettingsObjsCode', 'ScrubSettingsObjs', [List_(STXT), BOOL], List_(STXT), True)],
+}
 # (class, method) -> (Lean name, is a property)
 CLASS_METHODS = {('AnsiSetting', n): (v[0], v[4]) for n, v in SELF_METHODS.items()}
 CLASS_METHODS.update({('ParsedAnsiControlSequenceString', '__init__'): ('tokenizeInit', False),
@@ -1589,11 +1781,14 @@ EXPECTED = {
     'formattedStr': ('(self : Parsed)', 'Str'),
     'scrubFormatIntCode': ('(ansi_format : Int)', 'Int'),
     'parseRgbStringCode': ('(s : Str)', '(Option (List Str))'),
+    'scrubSettingsObjsCode': ('(fuel_ : Nat) (settings : List Str) (make_unique : Bool)', '(List Str)'),
+    'scrubFormatStringCode': ('(fuel_ : Nat) (ansi_format : Str) (make_unique : Bool)', '(List SOut)'),
 }
 VARIANTS = {'settings_to_dict': ['settingsToDictCode'], 'parse_graphic_sequence': ['parseGraphicSequenceStr', 'parseGraphicSequenceList'],
             'valid': ['settingValid'], 'to_list': ['settingToList'], 'parsable': ['settingParsable'],
             'get_initial_param': ['settingInitialParam'], '__init__': ['tokenizeInit'], 'formatted_str': ['formattedStr'],
-            '_scrub_ansi_format_int': ['scrubFormatIntCode'], '_parse_rgb_string': ['parseRgbStringCode']}
+            '_scrub_ansi_format_int': ['scrubFormatIntCode'], '_parse_rgb_string': ['parseRgbStringCode'],
+            '_scrub_ansi_settings': ['scrubSettingsObjsCode'], '_scrub_ansi_format_string': ['scrubFormatStringCode']}
 
 
 def camel(name):
@@ -1658,15 +1853,23 @@ def translate_function(tree, pyname, modname, cls=None):
         if cls is not None and (cls, pyname) in STATIC_METHODS:
             if not is_static:
                 raise Unsupported('not a static method')
-            params = []
-            for a in fn.args.args:
-                if a.annotation is None:
-                    raise Unsupported('parameter %s without annotation' % a.arg)
-                al = annotation(a.annotation)
-                if len(al) != 1:
-                    raise Unsupported('parameter %s of union type' % a.arg)
-                params.append((a.arg, al[0]))
-            variants.append((STATIC_METHODS[(cls, pyname)], params, '`%s.%s`, statement by statement' % (cls, pyname)))
+            params, defaults = [], []
+            if (cls, pyname) in STATIC_PARAMS:
+                params, defaults = STATIC_PARAMS[(cls, pyname)]
+                if [a.arg for a in fn.args.args] != [n for n, _ in params] + [n for n, _, _ in defaults] \
+                        or len(fn.args.defaults) < len(defaults) or \
+                        any(not (isinstance(dv, ast.List) and not dv.elts) for dv in fn.args.defaults[len(fn.args.defaults) - len(defaults):]):
+                    raise Unsupported('parameters ' + ', '.join(a.arg for a in fn.args.args))
+            else:
+                for a in fn.args.args:
+                    if a.annotation is None:
+                        raise Unsupported('parameter %s without annotation' % a.arg)
+                    al = annotation(a.annotation)
+                    if len(al) != 1:
+                        raise Unsupported('parameter %s of union type' % a.arg)
+                    params.append((a.arg, al[0]))
+            variants.append((STATIC_METHODS[(cls, pyname)], params, '`%s.%s`%s, statement by statement' % (
+                cls, pyname, ' for %s' % ', '.join('%s : %s' % (n, lean_ty(t)) for n, t in params) if defaults else ''), defaults))
         elif cls is not None:
             lean_name, prop = CLASS_METHODS[(cls, pyname)]
             names = [a.arg for a in fn.args.args]
@@ -1703,11 +1906,11 @@ def translate_function(tree, pyname, modname, cls=None):
     except Exception as e:                                           # noqa: the generator itself never fails
         return [(n, stub(n, '%s: %s' % (type(e).__name__, e))) for n in VARIANTS[pyname]], deps
     done = {}
-    for lean_name, params, doc in variants:
+    for lean_name, params, doc, *more in variants:
         try:
             if lean_name not in EXPECTED:
                 raise Unsupported('unexpected variant ' + lean_name)
-            f = Fn(fn, imports, params)
+            f = Fn(fn, imports, params, cls, more[0] if more else None)
             text = f.lean(lean_name, doc)
             sig, ret = EXPECTED[lean_name]
             if 'def %s %s : Except Exc %s :=' % (lean_name, sig, ret) not in text:
